@@ -17,8 +17,11 @@ import RrModel.Go.UrlEscape
   connection retries.  The cached re-entry sites (Appendix A rows f:redir, r:redir, w:redir,
   w:508) belong to a later slice.
 
-  `cachingFunc` calls itself; the model takes fuel and returns `diverged` at 0.  That some fuel
-  always suffices is the (false) statement of C18; see RrProofs/Props/C18.lean.
+  `cachingFunc` calls itself; every redirect that leads to a re-entry is counted per client request
+  (`redirects++; if redirects > maxRedirects` ⇒ 508 Loop detected, server.go — the repair of
+  findings C18-a / C18-c), so the nesting is bounded.  The model keeps a fuel parameter for
+  structural recursion and returns `diverged` at 0; fuel `maxRedirects + 1` always suffices
+  (`Props.C18.terminates`, RrProofs/Props/C18.lean).
 
   Declared domain of the URL layer (Go/Url.lean, Go/UrlEscape.lean are at split level): hosts
   are plain `name[:port]`, no userinfo errors, no `#` inside a query, fragments need no
@@ -169,6 +172,9 @@ structure Cfg where
   isRedirect : Nat → Bool
   /-- `cache.HasStorage` -/
   hasStorage : Bytes → Bool := fun _ => false
+  /-- `Facts.maxRedirects` (server.go `const maxRedirects`): the number of redirects followed for
+      one client request -/
+  maxRedirects : Nat
 
 /-- how one activation of `cachingFunc` ends when it does not call itself -/
 inductive Leaf where
@@ -198,12 +204,16 @@ def PrepErr.leaf : PrepErr → Leaf
   | .plainError => .plainError
   | .noDestination => .userError 404 b!"No destination found for request target"
 
-/-- the arguments of one activation of `cachingFunc` that matter here: the request and `frf` -/
+/-- the arguments of one activation of `cachingFunc` that matter here: the request and `frf`,
+    and the closure's counter as the activation finds it -/
 structure Level where
   req : Req
   /-- `frf.Rule`; `none` = `frf == nil` (the client's own request).  A re-entry always carries a
       rule: without one `RouteRequest` answers 404 before any redirect is seen. -/
   frf : Option Rule := none
+  /-- `redirects`: the redirects followed so far for this client request (the variable lives in
+      `cachingHandler`'s closure, one per client request; 0 for the client's own request) -/
+  hops : Nat := 0
   deriving Repr
 
 inductive HopRes where
@@ -287,14 +297,16 @@ def redirectOf (cfg : Cfg) (resp : Resp) : Option (Option RUrl) :=
     | some l => some (some l)
   else some none
 
-/-- the re-entry (server.go:120-126): `OriginalURL` = the contacted URL -/
-def reenter (p : Prepared) (redir : RUrl) : Level :=
+/-- the re-entry (server.go:125-131): `OriginalURL` = the contacted URL; `hops` = the counter
+    after this redirect has been counted -/
+def reenter (p : Prepared) (redir : RUrl) (hops : Nat := 0) : Level :=
   let u := p.contact.url
   let resolved := { redirectedURL p.r.url p.r.host u redir with scheme := u.scheme }
-  { req := { p.r with url := resolved, host := resolved.host }, frf := p.rf }
+  { req := { p.r with url := resolved, host := resolved.host }, frf := p.rf, hops := hops }
 
-/-- performing the request and what `cachingFunc` does with the answer (server.go:108-137) -/
-def conclude (cfg : Cfg) (p : Prepared) : HopRes :=
+/-- performing the request and what `cachingFunc` does with the answer (server.go:108-142);
+    `hops` = `redirects` as this activation finds it -/
+def conclude (cfg : Cfg) (hops : Nat) (p : Prepared) : HopRes :=
   let c := p.contact
   match cfg.origin c with
   | none => .leaf (.userError 502 b!"Destination unreachable") (some { c with failed := true })
@@ -305,14 +317,16 @@ def conclude (cfg : Cfg) (p : Prepared) : HopRes :=
     | some (some redir) =>
       if (p.rf.map (·.restartOnRedirect)).getD false then
         if urlEquals redir p.r.url then .leaf (.userError 508 b!"Loop detected") (some c)
-        else .next (reenter p redir) c
+        -- redirects++; if redirects > maxRedirects { 508 }
+        else if hops + 1 > cfg.maxRedirects then .leaf (.userError 508 b!"Loop detected") (some c)
+        else .next (reenter p redir (hops + 1)) c
       else .leaf (.response resp p.rule) (some c)
 
 /-- one activation of `cachingFunc` on the uncached path, up to (not including) the recursive call -/
 def hop (cfg : Cfg) (lvl : Level) : HopRes :=
   match prepare cfg lvl with
   | .error e => .leaf e.leaf none
-  | .ok p => conclude cfg p
+  | .ok p => conclude cfg lvl.hops p
 
 inductive Outcome where
   | done (l : Leaf) (hops : List Contact)
@@ -323,7 +337,8 @@ def Outcome.prepend (c : Contact) : Outcome → Outcome
   | .done l hops => .done l (c :: hops)
   | .diverged => .diverged
 
-/-- `cachingFunc` on the uncached path; `fuel` bounds the nesting of activations -/
+/-- `cachingFunc` on the uncached path; `fuel` bounds the nesting of activations (the code's own
+    bound is the redirect counter: `maxRedirects + 1` activations at most) -/
 def follow (cfg : Cfg) : Nat → Level → Outcome
   | 0, _ => .diverged
   | n + 1, lvl =>
@@ -331,7 +346,7 @@ def follow (cfg : Cfg) : Nat → Level → Outcome
     | .leaf l c => .done l c.toList
     | .next lvl' c => (follow cfg n lvl').prepend c
 
-/-- the contacts of the first `n` activations (what a runaway loop does before it is cut) -/
+/-- the contacts of the first `n` activations -/
 def trace (cfg : Cfg) : Nat → Level → List Contact
   | 0, _ => []
   | n + 1, lvl =>
